@@ -21,6 +21,8 @@ WINDOWED = ('update_partial_frame', 'update_partial_old_frame', 'update_partial_
             'update_partial_frame2', 'update_partial_achromatic_frame', 'update_partial_chromatic_frame',
             'display_partial_frame', 'shift_display')
 
+BLOCK_WRITE = ('epd2in9b_v4', 'epd7in5', 'epd7in5_hd', 'epd7in5_v2', 'epd7in5b_v2')   # SINGLE_BYTE_WRITE = false
+
 def buf(n, kind='r', seed=1):
     return "%d:%s:%d" % (n, kind, seed)
 
@@ -239,7 +241,12 @@ def suite_chunk(p):
         names += ['update_achromatic_frame', 'update_chromatic_frame']
     if p.quick:
         names += ['update_old_frame', 'update_new_frame']
-    for n in (1, 4095, 4096, 4097, 8191, 8192, 8193, 12288, 12289):
+    lens = [1, 4095, 4096, 4097, 8191, 8192, 8193, 12288, 12289]
+    if p.name in BLOCK_WRITE:
+        # the panels that hand whole slices to DisplayInterface::write (chunked there): every length within 5 of a
+        # multiple of 4096 up to five chunks
+        lens = sorted(set(lens + [k * 4096 + d for k in range(1, 6) for d in (-5, -2, -1, 0, 1, 2, 5)]))
+    for n in lens:
         for nm in names:
             out.append(case("k%d" % i, p, [['new'], [nm, buf(n, 'r', 30 + i)]]))
             i += 1
